@@ -26,7 +26,10 @@ EXPLANATION = (
     "Solve catches, Solve returns NAUNET_SUCCESS when the try block completes and NAUNET_FAIL through every handler (entered from each statement of the try block that can throw), integrate_adaptive runs over [0, dt] on the "
     "vector that is copied back, with an observer built per call from mxsteps_; R5 every caller of Solve inside the templates throws exactly when its result is "
     "NAUNET_FAIL (cvode and odeint Python wrappers agree); R6 (premise of R3) cv_y_ has no storage of its own and is pointed at the caller's array before "
-    "CVodeInit, so the state HandleError writes is the state CVodeReInit restarts from.")
+    "CVodeInit, so the state HandleError writes is the state CVodeReInit restarts from; every other CVode call HandleError makes before / between the levels "
+    "(its own or an inlined helper's, default arguments filled in, local lambdas inlined) reports the time reached into HandleError's own time variable whenever "
+    "a level can start afterwards (R3); R7 odeint: the member Solve builds the observer from is assigned from the budget parameter of Init / Reset on every path "
+    "on which they report success (no success exit before the assignment unless its guard says the member already equals the parameter).")
 ASSUMPTIONS = [
     "CVODE's / Boost.Odeint's own behaviour, floating-point exactness of pow(10, log10(dt)) and the scheduling of failures are not decided",
     "DESIGN.md Appendix D gives the invariant whose premises R2/R3 are",
@@ -54,6 +57,7 @@ class _Func:
         self.params = cstmt.params_of(f.header)
         self.body = body
         self.fn = cstmt.Fn(body)
+        self.fn.params = self.params
 
 
 # the functions the property is about: a call of one of them is an anchor of a rule, never an extracted piece of another function
@@ -81,11 +85,87 @@ def _helpers(sk, but):
         params = cstmt.param_decls(f.header)
         if params is None:
             continue
+        # default arguments: written at the definition, or (members) at the declaration in the class header
+        dflt = cstmt.param_defaults(f.header) or [None] * len(params)
+        m = re.search(r"\b" + re.escape(short) + r"\s*\(((?:[^()]|\([^()]*\))*)\)\s*(?:const\s*)?;", sk.__dict__.get("_c19_header", ""))
+        if m and len(dflt) == len(params):
+            decl = cstmt.param_defaults("void " + short + "(" + m.group(1) + ")")
+            if decl is not None and len(decl) == len(params):
+                dflt = [a if a is not None else b for a, b in zip(dflt, decl)]
         try:
-            cache[f.name] = (short, params, cstmt.parse_body(_THIS.sub("", cstmt.expand_macros(_ctext(sk, f.body), sk.__dict__.get("_c19_macros", {})))))
+            cache[f.name] = (short, params, cstmt.parse_body(_THIS.sub("", cstmt.expand_macros(_ctext(sk, f.body), sk.__dict__.get("_c19_macros", {})))), dflt)
         except cstmt.CStmtError:
             pass
-    return {v[0]: (v[1], v[2]) for k, v in cache.items() if v and k != but}
+    return {v[0]: (v[1], v[2], v[3]) for k, v in cache.items() if v and k != but}
+
+
+_CAPTURE_OK = re.compile(r"(&|this|\*this|&[A-Za-z_]\w*)$")
+
+
+def _local_lambdas(body):
+    """`auto name = [&](T a, U *b) { .. };` -- a local helper: calls of it are replaced by its body like those of a function of the
+    file.  What the body names is the enclosing function's variable when the capture is by reference (`[&]`, `[&x]`, `[this]`) or
+    there is nothing to capture (`[]`); a lambda that works on by-value copies of locals, is `mutable`, or is bound more than once
+    stays a call nobody looks into.  -> (body without the definitions, {name: (parameters, parsed body)})"""
+    found = {}
+    count = {}
+    for st, _ in cstmt.walk(body):
+        if st[0] == "expr":
+            for nm, op, rhs, decl in cstmt.assignments(st[1]):
+                count[nm] = count.get(nm, 0) + 1
+
+    def lam(st):
+        if st[0] != "expr" or "=" not in st[1]:
+            return None
+        t = st[1]
+        i = t.index("=")
+        if i < 2 or not cstmt.IDENT.match(t[i - 1]) or "auto" not in t[:i - 1] or not all(x in ("const", "auto", "static") for x in t[:i - 1]) or t[i + 1:i + 2] != ["["]:
+            return None
+        name = t[i - 1]
+        try:
+            j = t.index("]", i + 1)
+            caps = cstmt._top_split(t[i + 2:j], (",",)) if j > i + 2 else []
+            if not all(_CAPTURE_OK.match("".join(c)) for c in caps) or t[j + 1] != "(":
+                return None
+            d, k = 0, j + 1
+            while True:
+                d += t[k] == "("
+                d -= t[k] == ")"
+                if d == 0:
+                    break
+                k += 1
+            params = cstmt.param_decls("void f(" + " ".join(t[j + 2:k]) + ")")
+            rest = t[k + 1:]
+            if rest[:1] == ["->"]:
+                rest = rest[rest.index("{"):]
+            if params is None or rest[:1] != ["{"] or rest[-1] != "}" or count.get(name) != 1:
+                return None
+            return name, (params, cstmt.parse_body(" ".join(rest)), cstmt.param_defaults("void f(" + " ".join(t[j + 2:k]) + ")"))
+        except (ValueError, IndexError, cstmt.CStmtError):
+            return None
+
+    def strip(st):
+        k = st[0]
+        if k == "block":
+            out = []
+            for s in st[1]:
+                r = lam(s)
+                if r is not None and r[0] not in found:
+                    found[r[0]] = r[1]
+                else:
+                    out.append(strip(s))
+            return ("block", out)
+        if k == "if":
+            return ("if", st[1], strip(st[2]), None if st[3] is None else strip(st[3]))
+        if k == "for":
+            return ("for", st[1], st[2], st[3], strip(st[4]))
+        if k in ("while", "dowhile"):
+            return (k, st[1], strip(st[2]))
+        if k == "try":
+            return ("try", strip(st[1]), [(d, strip(b)) for d, b in st[2]])
+        return st
+    out = strip(body)
+    return (out, found) if found else (body, {})
 
 
 def _named_constants(ctx, sk, rel):
@@ -117,9 +197,12 @@ def _func(ctx, rel, cfg, fname):
     if "_c19_macros" not in sk.__dict__:
         sk._c19_macros = cstmt.macro_defs(_ctext(sk, sk.clean))
         sk._c19_consts = _named_constants(ctx, sk, rel)
+        hdr = rel.rsplit("/src/", 1)[0] + "/include/naunet.h.j2"
+        sk._c19_header = re.sub(r"/\*.*?\*/|//[^\n]*", " ", ctx.tree.read(hdr), flags=re.S) if ctx.tree.exists(hdr) else ""
     text = _THIS.sub("", cstmt.expand_macros(_ctext(sk, fs[0].body), sk._c19_macros))
     try:
-        body = cstmt.inline_calls(cstmt.parse_body(text), _helpers(sk, fname))
+        body, lambdas = _local_lambdas(cstmt.parse_body(text))
+        body = cstmt.inline_calls(body, {**_helpers(sk, fname), **lambdas})
         if sk._c19_consts:
             shadow = cstmt.declared_locals(body) | set(cstmt.params_of(fs[0].header) or ())
             body = cstmt._subst_stmt(body, {k: v for k, v in sk._c19_consts.items() if k not in shadow})
@@ -128,6 +211,7 @@ def _func(ctx, rel, cfg, fname):
         return None
     fn = _Func(sk, fs[0], body)
     fn.text = text
+    fn.sk = sk
     return fn
 
 
@@ -153,6 +237,7 @@ def check(ctx):
     _r4(ctx)
     _r5(ctx)
     _r6(ctx)
+    _r7_budget(ctx)
 
 
 def _flat_text(ctx, sk, f, cfg, fname):
@@ -187,11 +272,12 @@ def _r6(ctx):
                                                  r"|\bcv_y_\s*=\s*N_VMake_Serial\s*\([^;]*,\s*" + ab + r"\s*[,)]", body)]
         init = [m.start() for m in re.finditer(r"\bCVodeInit\s*\(\s*cv_mem_\s*,\s*\w+\s*,\s*[\w.]+\s*,\s*cv_y_\s*\)", body)]
         copied = re.search(r"N_VGetArrayPointer\w*\s*\(\s*cv_y_\s*\)|NV_DATA_S\s*\(\s*cv_y_\s*\)\s*\[|NV_Ith_S\s*\(\s*cv_y_", body)
-        ok = len(alias) == 1 and len(init) == 1 and alias[0] < init[0]
+        ok = bool(alias) and len(init) == 1 and min(alias) < init[0]
         key = f"cvode/{mth}:Solve:cv_y_ wraps ab"
         if ok:
             ctx.ok("R6", key, (CV, 0), f"N_VSetArrayPointer({ps[0] if ps else 'ab'}, cv_y_) precedes CVodeInit(cv_mem_, Fex, t0, cv_y_): what HandleError writes into the caller's array is the integrator's state")
-        elif copied or (len(alias) == 1 and len(init) == 1) or len(alias) > 1:
+        elif copied or (alias and len(init) == 1):
+            # positive evidence: the vector's own data is written element-wise, or the integrator is initialised before the aliasing
             ctx.bad("R6", key, (CV, 0),
                     "cv_y_ is not pointed at the caller's array before CVodeInit: HandleError resets `ab` (flag -6: back to ab_init_) but CVodeReInit restarts from cv_y_'s own copy -- "
                     "the interval is integrated from the partially advanced state and Solve reports success",
@@ -237,8 +323,17 @@ def _r1(ctx):
                     ctx.missing("R1", f"cvode/{mth}:{fname}", (CV, 0), "function not found")
                 continue
             n += 1
-            probs = cstmt.unchecked_flags(body, lambda c: c.startswith("CVode") and not c.startswith("CVodeCreate") and not c.startswith("CVodeFree"))
+            # a call that can read the status without naming it may be its test: a local closure (`auto failed = [=]..`) that was not
+            # looked into, or -- for a status kept in a member -- another function of the file
+            locs = cstmt.declared_locals(body)
+            mine = locs | set(cstmt.params_of(sk.func(fname)[0].header) or ())
+            filefns = {f.name.split("::")[-1] for f in sk.funcs if f.name != "?"} - SUBJECTS
+            maybe = []
+            probs = cstmt.unchecked_flags(body, lambda c: c.startswith("CVode") and not c.startswith("CVodeCreate") and not c.startswith("CVodeFree"),
+                                          opaque=lambda name, var: name in locs or (name in filefns and var not in mine), unknown=maybe)
             key = f"cvode/{mth}:{fname}"
+            for var, _, name in maybe:
+                ctx.unrec("R1", f"{key}:{var} read by {name}", (CV, 0), f"`{name}(..)` can read the status `{var}` without naming it and could not be looked into: cannot tell whether it tests the status")
             if not probs:
                 ncalls = sum(1 for s, c in cstmt.walk(body) if s[0] == "expr" and cstmt.assigned_call(s[1]) and cstmt.assigned_call(s[1])[1].startswith("CVode"))
                 ctx.ok("R1", key, (CV, 0), f"every status of the {ncalls} CVode* calls is tested before it is overwritten or the function returns")
@@ -323,8 +418,12 @@ def _checkflag(toks):
 
 
 def _relevant(F, g, names):
-    """can the guard say anything about `names`?  Only when it mentions one of them or a local computed in this function."""
-    return any(t in names or t in F.defs for t in g[1] if cstmt.IDENT.match(t))
+    """can the guard say anything about `names`?  When it mentions one of them or a local computed in this function -- or a name
+    this function does not define at all and that is not a parameter / named constant (a member another function may have set
+    from the flag: nothing is known about it)."""
+    known = set(getattr(F, "params", None) or ()) | set(CONSTS) | {"NEQUATIONS", "errfp_", "true", "false", "NULL", "nullptr"}
+    return any(t in names or t in F.defs or (t not in known and not t.isupper()) for j, t in enumerate(g[1])
+               if cstmt.IDENT.match(t) and not (j + 1 < len(g[1]) and g[1][j + 1] == "(") and t not in cstmt.CAST_TYPES)
 
 
 def _bare(tokens) -> str:
@@ -431,8 +530,11 @@ def _r2_handle_error(ctx, label, F, FLAG):
     ladder = [s for s, c in F.seq if s[0] in ("for", "while", "dowhile") and any(_is_call(x, "CVodeReInit") for x, _ in cstmt.walk(s))]
     if not ladder:
         last = F.body[1][-1] if F.body[0] == "block" and F.body[1] else ("?",)
-        ctx.check(last[0] == "return" and cstmt.value(last[1], CONSTS) == 1, "R2", key, (CV, 0),
-                  "when all levels are exhausted the function returns NAUNET_FAIL", found=cstmt.txt(last[1]) if last[0] == "return" else last[0])
+        val = cstmt.value(last[1], CONSTS) if last[0] == "return" else None
+        if val in (0, 1):
+            ctx.check(val == 1, "R2", key, (CV, 0), "when all levels are exhausted the function returns NAUNET_FAIL", found=cstmt.txt(last[1]))
+        else:
+            ctx.unrec("R2", key, (CV, 0), f"the function does not end in a plain `return NAUNET_FAIL` / `return NAUNET_SUCCESS` ({last[0]}): the last exit is not understood")
         return
     ends = {}
     try:
@@ -463,9 +565,18 @@ def _r2_handle_error(ctx, label, F, FLAG):
         ctx.unrec("R2", key, (CV, 0), f"cannot follow what the function returns after the last level: {sorted(set(map(str, wrong.values())))}")
 
 
-def _loop_var(loop):
-    """(variable, expression text of its value in the last iteration) of `for (..; v < E; v++)` / `.. while (v <= E) { ..; v++; }`"""
+def _loop_var(loop, flag=None):
+    """(variable, expression text of its value at the head of the last iteration) of `for (..; v < E; v++)` / `.. while (v <= E) { ..; v++; }`.
+    A further conjunct of the condition that only says "the last status is not a failure" (`flag >= 0 && v < E`: the `break` on a
+    failed call, written into the loop condition) does not shorten a run in which every call succeeds."""
     cond = loop[2] if loop[0] == "for" else loop[1]
+    conj = cstmt._top_split(list(cond), ("&&",))
+    if flag and len(conj) > 1:
+        rest = [cj for cj in conj if not all(cstmt.truth(cj, {**CONSTS, flag: v}) is True for v in (0, 1, 2, 99))]
+        if len(rest) == 1:
+            cond = rest[0]
+            while len(cond) >= 2 and cond[0] == "(" and cond[-1] == ")" and cstmt.sole_call(["f"] + list(cond)):
+                cond = cond[1:-1]
     incs = cstmt.assignments(loop[3]) if loop[0] == "for" else []
     if loop[0] == "while":
         body = loop[2][1] if loop[2][0] == "block" else [loop[2]]
@@ -483,6 +594,53 @@ def _loop_var(loop):
             if lhs == [v] and v not in rhs:
                 bound = " ".join(rhs)
                 return v, (f"({bound}) - 1" if op in ("<", ">", "!=") else f"({bound})")
+    return None
+
+
+def _numerically_different(a: str, b: str):
+    """Second opinion for a `not the same value` of the canonical algebra (which is incomplete: two spellings of one function can have
+    different canonical forms): the two C expressions evaluated at random positive values of their symbols.  True -- they differ at
+    a point (positive evidence); False -- they agree at every point tried; None -- cannot be evaluated."""
+    import math
+    import random
+    try:
+        ea, eb = calg.parse(a), calg.parse(b)
+    except calg.CParseError:
+        return None
+    names = sorted(set(calg.idents(ea)) | set(calg.idents(eb)))
+    FN = {"pow": math.pow, "log10": math.log10, "log": math.log, "exp": math.exp, "sqrt": math.sqrt, "fabs": abs, "abs": abs, "fmin": min, "fmax": max, "min": min, "max": max}
+
+    def ev(e, env):
+        k = e[0]
+        if k == "num":
+            return e[1]
+        if k == "id":
+            return env[e[1]]
+        if k == "neg":
+            return -ev(e[1], env)
+        if k == "bin" and e[1] in ("+", "-", "*", "/"):
+            x, y = ev(e[2], env), ev(e[3], env)
+            return x + y if e[1] == "+" else x - y if e[1] == "-" else x * y if e[1] == "*" else x / y
+        if k == "call" and e[1] in FN:
+            return FN[e[1]](*[ev(x, env) for x in e[2]])
+        raise KeyError(k)
+    rnd = random.Random(19)
+    good = 0
+    for _ in range(60):
+        env = {n: rnd.uniform(0.05, 3.0) for n in names if n not in FN}
+        try:
+            x, y = ev(ea, env), ev(eb, env)
+        except (ValueError, ZeroDivisionError, OverflowError):
+            continue
+        except (KeyError, TypeError):
+            return None
+        if isinstance(x, complex) or isinstance(y, complex):
+            continue
+        good += 1
+        if abs(x - y) > 1e-9 * max(1.0, abs(x), abs(y)):
+            return True
+        if good >= 8:
+            return False
     return None
 
 
@@ -549,7 +707,7 @@ def _r3_ladder(ctx, label, F, FLAG, AB, DT, T0):
         if not r or r[0] != "stop":
             raise cstmt.Unknown("no sub-step loop around a CVode call after the re-initialisation")
         sub = r[1]
-        sv = _loop_var(sub)
+        sv = _loop_var(sub, FLAG)
         if not sv:
             raise cstmt.Unknown(f"cannot tell the last iteration of the sub-step loop `{cstmt.txt(sub[2] if sub[0] == 'for' else sub[1])}`")
         post.s[sv[0]] = post.subst(cstmt.tokenize(sv[1]))
@@ -571,8 +729,13 @@ def _r3_ladder(ctx, label, F, FLAG, AB, DT, T0):
                     + f", not into {T0}: at the next level the recoverable branch subtracts an unchanged {T0} (= {kept if kept != T0 else 'its value at the re-initialisation'}) from the time left -- "
                     "the part already integrated is integrated again from the state reached, and Solve reports success",
                     expected=f"{FLAG} = CVode(cv_mem_, tout, cv_y_, &{T0}, CV_NORMAL)", found=f"{cv[0]} = CVode({', '.join(args)})")
+        elif okc:
+            ctx.ok("R3", f"{label}:CVode call", where, f"{FLAG} = CVode(cv_mem_, tout, cv_y_, &{T0}, CV_NORMAL): progress is reported into {T0}")
+        elif len(args) == 5 and args[0] == "cv_mem_" and args[2] == "cv_y_" and args[3] == "&" + T0 and args[4] in ("CV_ONE_STEP", "2") and cv[0] == FLAG:
+            ctx.bad("R3", f"{label}:CVode call", where, "CVode is asked for ONE internal step (CV_ONE_STEP), not to integrate up to the target of the sub-step: the level ends long before the time left is covered",
+                    expected=f"{FLAG} = CVode(cv_mem_, tout, cv_y_, &{T0}, CV_NORMAL)", found=f"{cv[0]} = CVode({', '.join(args)})")
         else:
-            ctx.check(okc, "R3", f"{label}:CVode call", where, f"{FLAG} = CVode(cv_mem_, tout, cv_y_, &{T0}, CV_NORMAL): progress is reported into {T0}", found=f"{cv[0]} = CVode({', '.join(args)})")
+            ctx.unrec("R3", f"{label}:CVode call", where, f"the CVode call of the sub-step loop is not in a shape this rule understands: {cv[0]} = CVode({', '.join(args)})")
         G = post.subst(cstmt.strip_casts(cv[2][1])) if len(cv[2]) > 1 else "?"
         Gt = cstmt.tokenize(G)
     except cstmt.Unknown as ex:
@@ -658,6 +821,8 @@ def _r3_ladder(ctx, label, F, FLAG, AB, DT, T0):
         for lvl, pairs in per_level:
             pairs = [(kind, at_level(a, lvl), at_level(b, lvl)) if kind == "scalar" else (kind, a, b) for kind, a, b in pairs]
             vs = [cstmt.same_value(a, b) if kind == "scalar" else (None if cstmt.OPAQUE in a + b else a == b) for kind, a, b in pairs]
+            # "not the same" of the (incomplete) canonical algebra counts only when the two values differ at a point
+            vs = [(x if x is not False or kind != "scalar" else {True: False, False: True, None: None}[_numerically_different(a, b)]) for x, (kind, a, b) in zip(vs, pairs)]
             if not found or (any(x is False for x in vs) and not any(x is False for x in vals)) or (any(x is not True for x in vs) and all(x is True for x in vals)):
                 found = (f"level {lvl}: " + "; ".join(f"{a}  vs  {b}" for kind, a, b in pairs))[:320]
             vals += vs
@@ -692,12 +857,134 @@ def _r3_ladder(ctx, label, F, FLAG, AB, DT, T0):
         args = [cstmt.norm(a) for a in rcall[2]]
         t_arg = fin.subst(cstmt.strip_casts(rcall[2][1])) if len(rcall[2]) == 3 else "?"
         z = cstmt.same_value(t_arg, "0")
-        okr = len(args) == 3 and args[0] == "cv_mem_" and args[2] == "cv_y_" and z is True
-        if z is None and len(args) == 3:
+        shape = len(args) == 3 and args[0] == "cv_mem_" and args[2] == "cv_y_"
+        if not shape:
+            ctx.unrec("R3", f"{label}:re-initialisation", where, f"CVodeReInit({', '.join(args)}) is not called on (cv_mem_, time, cv_y_): not understood")
+        elif z is None:
             ctx.unrec("R3", f"{label}:re-initialisation", where, f"cannot follow the restart time `{t_arg}`")
         else:
-            ctx.check(okr, "R3", f"{label}:re-initialisation", where, f"the integrator restarts at time 0 from cv_y_ (= {AB}): CVodeReInit(cv_mem_, 0, cv_y_)", found=f"CVodeReInit({', '.join(args)}) with time = {t_arg}")
+            ctx.check(z is True, "R3", f"{label}:re-initialisation", where, f"the integrator restarts at time 0 from cv_y_ (= {AB}): CVodeReInit(cv_mem_, 0, cv_y_)", found=f"CVodeReInit({', '.join(args)}) with time = {t_arg}")
         break
+
+
+def _flow_after(st, s, goal, exits):
+    """Where control can go after statement `s` (somewhere inside `st`), read off the statement tree: "reached" -- it can arrive at
+    `goal` (a later statement of an enclosing block, or the loop around `s`: its next iteration); "stops" -- every way on ends in
+    return / throw first; "falls" -- it leaves `st` at its end; None -- `s` is not inside `st`.  The `if` statements passed on the way
+    that leave the function in one arm only are collected in `exits` as (condition tokens, polarity under which control goes on)."""
+    k = st[0]
+    if st is s:
+        return "falls"
+    if k == "block":
+        r = None
+        for i, x in enumerate(st[1]):
+            if r is None:
+                r = _flow_after(x, s, goal, exits)
+                if r in ("reached", "stops"):
+                    return r
+                continue
+            # r == "falls": the statements that follow
+            if x is goal:
+                return "reached"
+            jumps = {y[0] for y, cs in cstmt.walk(x) if y[0] in ("break", "continue") and not any(g[0] in ("for", "while") for g in cs)}
+            if cstmt.always_exits(x):
+                return "falls" if jumps else "stops"
+            if x[0] == "if" and not jumps:
+                th, el = cstmt.always_exits(x[2]), x[3] is not None and cstmt.always_exits(x[3])
+                if th or el:
+                    exits.append((tuple(x[1]), not th))
+        return r
+    if k == "if":
+        for arm in (st[2], st[3]):
+            if arm is not None:
+                r = _flow_after(arm, s, goal, exits)
+                if r is not None:
+                    return r
+        return None
+    if k in ("for", "while", "dowhile"):
+        r = _flow_after(st[4] if k == "for" else st[2], s, goal, exits)
+        if r == "falls" and st is goal:
+            return "reached"
+        return r
+    if k == "try":
+        for arm in [st[1]] + [b for d, b in st[2]]:
+            r = _flow_after(arm, s, goal, exits)
+            if r is not None:
+                return r
+    return None
+
+
+def _r3_time_reached(ctx, label, fn, FLAG, T0):
+    """Every CVode call HandleError makes (its own or a helper's, inlined) advances the integrator: the recoverable branch of the
+    ladder subtracts `t0` from the time left and continues from the state reached, so the time the LAST call reached must be in
+    HandleError's own `t0` whenever a level can start afterwards.  (The call inside the sub-step loop is judged with the ladder.)"""
+    F = fn.fn
+    where = (CV, 0)
+    ladder = [s for s, c in F.seq if s[0] in ("for", "while", "dowhile") and any(_is_call(x, "CVodeReInit") for x, _ in cstmt.walk(s))]
+    if not ladder:
+        return
+    ladder = ladder[0]
+    lpos = F.pos[id(ladder)]
+    # a helper of this file that calls CVode and could not be looked into
+    steppers = {f.name.split("::")[-1] for f in fn.sk.funcs if f.name != "?" and f.name.split("::")[-1] not in SUBJECTS and re.search(r"\bCVode\s*\(", fn.sk.plain(f.body))}
+    for s, c in F.seq:
+        for pt in ([s[1]] if s[0] in ("expr", "return", "if", "while", "dowhile") else [s[1], s[2], s[3]] if s[0] == "for" else []):
+            for j, t in enumerate(pt):
+                if t in steppers and pt[j + 1:j + 2] == ["("] and not (j and pt[j - 1] in (".", "->", "::")):
+                    ctx.unrec("R3", f"{label}:HandleError:{t} advances the integrator", where, f"`{t}(..)` calls CVode and could not be looked into: where the time it reaches goes is not known")
+                    return
+    n = 0
+    for s, c in F.seq:
+        cv = _is_call(s, "CVode")
+        if not cv:
+            continue
+        inner = [g[3] for g in c if g[0] in ("for", "while")]
+        if ladder in inner and inner[-1] is not ladder and F.pos[id(s)] > min([F.pos[id(x)] for x, _ in cstmt.walk(ladder) if _is_call(x, "CVodeReInit")]):
+            continue                    # the sub-step loop of the ladder: _r3_ladder
+        n += 1
+        args = [cstmt.norm(a) for a in cv[2]]
+        key = f"{label}:HandleError:CVode call outside the sub-steps #{n}"
+        tret = args[3][1:] if len(args) == 5 and args[3].startswith("&") and cstmt.IDENT.match(args[3][1:]) else None
+        if tret is None:
+            ctx.unrec("R3", key, where, f"cannot see where CVode({', '.join(args)}) reports the time reached")
+            continue
+        if tret == T0:
+            ctx.ok("R3", key, where, f"the time reached goes into {T0}")
+            continue
+        exits = []
+        r = _flow_after(F.body, s, ladder, exits)
+        sp = F.pos[id(s)]
+        end = lpos if sp < lpos else max(F.pos[id(x)] for x, _ in cstmt.walk(ladder))
+        handed = [i for i, op, rhs, decl in F.defs.get(T0, ()) if sp < i <= end]
+        if r == "stops":
+            ctx.ok("R3", key, where, "no level of the ladder starts after this call")
+            continue
+        if handed:
+            same = all(op == "=" and rhs is not None and _bare(rhs) == tret for i, op, rhs, decl in F.defs.get(T0, ()) if sp < i <= end)
+            if same and sp < lpos:
+                ctx.ok("R3", key, where, f"the time reached is handed to {T0} before the ladder")
+            else:
+                ctx.unrec("R3", key, where, f"CVode reports into `{tret}` and {T0} is written afterwards: cannot follow which time the next level subtracts")
+            continue
+        res = cv[0]
+        open_for = []
+        undecided = False
+        for v in REC:
+            ts = [cstmt.truth(cond, {**CONSTS, res: v}) for cond, goes_on in exits]
+            if any(t is None for t in ts):
+                undecided = True
+            elif all(t == goes_on for t, (cond, goes_on) in zip(ts, exits)):
+                open_for.append(v)
+        if r == "reached" and open_for and not F.written_between({res}, sp, lpos if sp < lpos else sp):
+            ctx.bad("R3", key, where,
+                    f"CVode advances the integrator and reports the time reached into `{tret}`" + (f" (a by-value copy of {T0})" if "__byval" in tret else "") + f", not into {T0}; when it fails again "
+                    f"(e.g. {res} = {open_for[0]}) the ladder starts from the state reached and subtracts the stale {T0} from the time left: the stretch integrated by this call is "
+                    "integrated twice and Solve reports success",
+                    expected=f"CVode(cv_mem_, tout, cv_y_, &{T0}, CV_NORMAL): progress reported into HandleError's own {T0}", found=f"{res} = CVode({', '.join(args)})")
+        elif r == "reached" and not undecided and not open_for:
+            ctx.ok("R3", key, where, "every recoverable result of this call leaves the function before a level starts")
+        else:
+            ctx.unrec("R3", key, where, f"CVode reports into `{tret}`, not into {T0}: cannot decide whether a level of the ladder can start afterwards")
 
 
 def _r2_solve(ctx, label, mth):
@@ -720,23 +1007,69 @@ def _r2_solve(ctx, label, mth):
     T = ca[3][1:] if len(ca) == 5 and ca[3].startswith("&") else None
     ok = cvi < hei and T is not None and ca == ["cv_mem_", DT, "cv_y_", "&" + T, "CV_NORMAL"] and ha == [cv[0], AB, DT, T] \
         and not F.written_between({cv[0], T, DT}, cvi, hei)
-    ctx.check(ok, "R2", f"{label}:Solve:HandleError receives the flag", (CV, 0), f"flag = HandleError({cv[0]}, {AB}, {DT}, {T}) right after {cv[0]} = CVode(cv_mem_, {DT}, cv_y_, &{T}, ..)",
-              expected="the flag, the state, the interval and the time CVode reached", found=f"CVode({', '.join(ca)}) then HandleError({', '.join(ha)})")
+    known = set(fn.params) | cstmt.declared_locals(fn.body)
+
+    def plain(e):
+        """an argument this rule understands although it is not the expected one: numbers and locals / parameters of Solve combined
+        by arithmetic (no call, no member access, no indexing) -- a DIFFERENT value, not a different spelling"""
+        toks = cstmt.tokenize(e)
+        return bool(toks) and all((cstmt.IDENT.match(t) and t in known) or re.match(r"[\d.]", t) or t in ("+", "-", "*", "/", "(", ")", "&") for t in toks) \
+            and not any(cstmt.IDENT.match(t) and toks[j + 1:j + 2] == ["("] for j, t in enumerate(toks))
+    want_c = ["cv_mem_", DT, "cv_y_", "&" + (T or "?"), "CV_NORMAL"]
+    want_h = [cv[0], AB, DT, T]
+    differs = [(w, g) for w, g in list(zip(want_c, ca))[1:2] + (list(zip(want_h, ha)) if len(ha) == 4 else []) if w != g]
+    key = f"{label}:Solve:HandleError receives the flag"
+    if ok:
+        ctx.ok("R2", key, (CV, 0), f"flag = HandleError({cv[0]}, {AB}, {DT}, {T}) right after {cv[0]} = CVode(cv_mem_, {DT}, cv_y_, &{T}, ..)")
+    elif cvi < hei and T is not None and len(ca) == 5 and len(ha) == 4 and ca[0] == "cv_mem_" and ca[2] == "cv_y_" and ca[4] == "CV_NORMAL" \
+            and (F.written_between({cv[0], T, DT}, cvi, hei) or (differs and all(plain(g) for w, g in differs))):
+        # positive evidence: every argument is understood and one of them is another value (a stale local, a literal), or the
+        # flag / time / interval is overwritten between the two calls
+        ctx.bad("R2", key, (CV, 0), f"flag = HandleError({cv[0]}, {AB}, {DT}, {T}) right after {cv[0]} = CVode(cv_mem_, {DT}, cv_y_, &{T}, ..)",
+                expected="the flag, the state, the interval and the time CVode reached", found=f"CVode({', '.join(ca)}) then HandleError({', '.join(ha)})")
+    else:
+        ctx.unrec("R2", key, (CV, 0), f"the hand-over from CVode to HandleError is not in a shape this rule understands: CVode({', '.join(ca)}) then HandleError({', '.join(ha)})")
     FL = he[0]
     rets = [s for s, c in F.seq if s[0] == "return"]
     ident = bool(rets) and all(cstmt.value(rets[-1][1], {FL: x, **CONSTS}) == x for x in (0, 1)) and not F.written_between({FL}, hei, F.pos[id(rets[-1])])
     rest = all(cstmt.value(r[1], {FL: 1, **CONSTS}) == 1 for r in rets)
-    ctx.check(ident and rest, "R2", f"{label}:Solve:returns HandleError's result", (CV, 0), f"Solve returns `{FL}`", found=str([cstmt.txt(r[1]) for r in rets]))
-    logs = [(x, c) for x, c in F.seq if x[0] == "expr" and "ab_init_" in x[1] and "fprintf" in x[1]]
-    ok = bool(logs)
+    if not rets or any(cstmt.value(r[1], {FL: x, **CONSTS}) is None for r in rets for x in (0, 1)):
+        ctx.unrec("R2", f"{label}:Solve:returns HandleError's result", (CV, 0), f"cannot evaluate what Solve returns: {[cstmt.txt(r[1]) for r in rets]}")
+    else:
+        ctx.check(ident and rest, "R2", f"{label}:Solve:returns HandleError's result", (CV, 0), f"Solve returns `{FL}`", found=str([cstmt.txt(r[1]) for r in rets]))
+    OUT = ("fprintf", "fputs", "fwrite", "printf", "puts")
+    logs = [(x, c) for x, c in F.seq if x[0] == "expr" and "ab_init_" in x[1] and any(o in x[1] for o in OUT)]
+    ok, unsure = bool(logs), False
     for x, c in logs:
         # tests made before the result existed (the early returns of the set-up calls) say nothing about it
         g = [y for y in _guards(F, c, x, keep=(FL,)) if y[0] == "if" and F.pos.get(id(y[3]), 0) > hei]
-        ok = ok and cstmt.guards_truth(g, {FL: 1, **CONSTS}) is True and cstmt.guards_truth(g, {FL: 0, **CONSTS}) is False
-    ctx.check(ok, "R2", f"{label}:Solve:initial state logged on failure", (CV, 0), f"ab_init_ is written to the error file exactly under `{FL} == NAUNET_FAIL`")
-    saved = [F.pos[id(s)] for s, c in F.seq for d, src, n in (cstmt.copies(s) or []) if s[0] in ("for", "expr") and d == "ab_init_" and src == AB and n == "NEQUATIONS"]
-    ctx.check(bool(saved) and min(saved) < cvi and not F.written_between({AB}, min(saved), cvi), "R3", f"{label}:Solve:initial state saved", (CV, 0),
-              "ab_init_ (and ab_tmp_) are copies of the state taken before the first CVode call")
+        t1, t0_ = cstmt.guards_truth(g, {FL: 1, **CONSTS}), cstmt.guards_truth(g, {FL: 0, **CONSTS})
+        unsure = unsure or t1 is None or t0_ is None
+        ok = ok and t1 is True and t0_ is False
+    key = f"{label}:Solve:initial state logged on failure"
+    # without a recognised log statement: a violation only when what Solve does after HandleError is understood -- plain stdio
+    # calls and nothing that could do the logging elsewhere (a call of another function, a stream, a mention of ab_init_)
+    tail = [x for x, c in F.seq if F.pos[id(x)] > hei and x[0] in ("expr", "if", "while", "for", "return")]
+    foreign = [t for x in tail for pt in ([x[1]] if x[0] != "for" else [x[1], x[2], x[3]]) for j, t in enumerate(pt)
+               if (cstmt.IDENT.match(t) and pt[j + 1:j + 2] == ["("] and t not in OUT + ("fflush", "CVodeFree", "sizeof", "if", "for", "while") and t not in cstmt.CAST_TYPES) or t in ("<<", "ab_init_")]
+    if ok:
+        ctx.ok("R2", key, (CV, 0), f"ab_init_ is written to the error file exactly under `{FL} == NAUNET_FAIL`")
+    elif (logs and not unsure) or (not logs and not foreign):
+        ctx.bad("R2", key, (CV, 0), f"ab_init_ is written to the error file exactly under `{FL} == NAUNET_FAIL`",
+                found="no statement that prints ab_init_" if not logs else "the statement that prints ab_init_ does not run exactly when the result is NAUNET_FAIL")
+    else:
+        ctx.unrec("R2", key, (CV, 0), "how (and under which test) the initial state is logged after HandleError is not understood" + (f": {sorted(set(foreign))[:4]}" if foreign else ""))
+    into = [(F.pos[id(s)], src, n) for s, c in F.seq for d, src, n in (cstmt.copies(s) or []) if s[0] in ("for", "expr") and d == "ab_init_"]
+    saved = [i for i, src, n in into if src == AB and n == "NEQUATIONS"]
+    key = f"{label}:Solve:initial state saved"
+    if saved and min(saved) < cvi and not F.written_between({AB}, min(saved), cvi):
+        ctx.ok("R3", key, (CV, 0), "ab_init_ (and ab_tmp_) are copies of the state taken before the first CVode call")
+    elif into or saved or not any("ab_init_" in pt for x, c in F.seq if F.pos[id(x)] < cvi for pt in x[1:] if isinstance(pt, list) and (not pt or isinstance(pt[0], str))):
+        # a recognised copy into ab_init_ from something else / too late / of a state written since, or ab_init_ not touched at all before CVode
+        ctx.bad("R3", key, (CV, 0), "ab_init_ (and ab_tmp_) are copies of the state taken before the first CVode call",
+                found=f"copies into ab_init_: {[(src, n) for i, src, n in into]}" if into else "ab_init_ is not written before the CVode call")
+    else:
+        ctx.unrec("R3", key, (CV, 0), "ab_init_ is written before the CVode call in a way this rule does not recognise as a copy of the whole state")
 
 
 def _r2_r3(ctx):
@@ -751,6 +1084,7 @@ def _r2_r3(ctx):
             continue
         FLAG, AB, DT, T0 = fn.params
         _r2_handle_error(ctx, label, fn.fn, FLAG)
+        _r3_time_reached(ctx, label, fn, FLAG, T0)
         _r3_ladder(ctx, label, fn.fn, FLAG, AB, DT, T0)
         _r2_solve(ctx, label, mth)
 
@@ -793,13 +1127,26 @@ def _r4(ctx):
         first_test = min([F.pos.get(id(g[3]), 0) for g in ifs] or [0])
         cpos = [i for i, nm in incs if nm == C]
         uncond = [i for i in cpos if not [g for g in F.seq[i][1] if g[0] in ("if", "for", "while", "try", "catch")]]
-        ctx.check(bool(uncond) and len(cpos) == 1, "R4", "Observer:counts every step", (ODE, 0), f"{C} is incremented on every observer call, unconditionally")
+        if len(cpos) == 1 and (uncond or all(g[0] == "if" for g in F.seq[cpos[0]][1])):
+            ctx.check(bool(uncond), "R4", "Observer:counts every step", (ODE, 0), f"{C} is incremented on every observer call, unconditionally",
+                      found=f"{C} is only incremented under a test")
+        else:
+            ctx.unrec("R4", "Observer:counts every step", (ODE, 0), f"{C} is incremented at {len(cpos)} places / inside a loop: cannot tell whether every observer call is counted once")
         ctx.check(bool(cpos) and (max(cpos) < first_test or (max(cpos) == first_test and max(cpos) in incond)), "R4", "Observer:counts before testing", (ODE, 0), "the call being observed is counted before the budget is tested",
                   found="the budget is compared with the count of the previous call: one step more than the budget is taken")
     if thrown is None:
         inc = any(not [g for g in F.seq[i][1] if g[0] == "if"] for i, nm in incs)
-        ctx.check(inc, "R4", "Observer:counts every step", (ODE, 0), "step_ is incremented on every observer call, unconditionally")
-    ctx.check(thrown is not None, "R4", "Observer:throws", (ODE, 0), "exceeding the budget raises an exception")
+        ctx.check(inc, "R4", "Observer:counts every step", (ODE, 0), "step_ is incremented on every observer call, unconditionally") if incs else None
+        # no `throw` in the observer (helpers of the file inlined): a violation when the body is understood -- nothing is called that
+        # could raise on the observer's behalf
+        calls = sorted({t for x, c in F.seq for pt in x[1:] if isinstance(pt, list) and (not pt or isinstance(pt[0], str)) for j, t in enumerate(pt)
+                        if cstmt.IDENT.match(t) and pt[j + 1:j + 2] == ["("] and t not in cstmt.NO_THROW_CALLS and t not in cstmt.CAST_TYPES and t not in ("if", "for", "while", "sizeof")})
+        if calls:
+            ctx.unrec("R4", "Observer:throws", (ODE, 0), f"the observer does not throw itself and calls {calls[:4]}: cannot tell whether exceeding the budget raises an exception")
+        else:
+            ctx.bad("R4", "Observer:throws", (ODE, 0), "exceeding the budget raises an exception", found="no throw statement in the observer")
+    else:
+        ctx.ok("R4", "Observer:throws", (ODE, 0), "exceeding the budget raises an exception")
     sv = _func(ctx, OD, {}, "Naunet::Solve")
     if sv is None:
         ctx.missing("R4", "odeint Solve", (OD, 0), "Solve not found")
@@ -821,27 +1168,50 @@ def _r4(ctx):
         integ_st = [x for x, _ in cstmt.walk(t[1]) if x[0] == "expr" and "integrate_adaptive" in x[1]]
         integ = [x[1] for x in integ_st]
         caught = ["".join(d) for d, b in t[2]]
-        type_ok = thrown is not None and any(thrown in c or "std::exception" in c or c == "..." for c in caught)
-        ctx.check(type_ok, "R4", "Solve catches what the observer throws", (OD, 0),
-                  f"the observer throws {thrown}, which the handler catches" if type_ok else
-                  f"the observer throws `{thrown}` but Solve only catches {caught}: exceeding the step budget escapes Solve instead of returning NAUNET_FAIL",
-                  expected=f"catch (const {thrown} &e)", found=str(caught))
+        # the standard exception classes and their bases (<stdexcept>); a type outside the table is judged by its name only
+        BASES = {"exception": (), "logic_error": ("exception",), "runtime_error": ("exception",), "bad_alloc": ("exception",),
+                 "invalid_argument": ("logic_error", "exception"), "domain_error": ("logic_error", "exception"), "length_error": ("logic_error", "exception"),
+                 "out_of_range": ("logic_error", "exception"), "range_error": ("runtime_error", "exception"), "overflow_error": ("runtime_error", "exception"),
+                 "underflow_error": ("runtime_error", "exception"), "system_error": ("runtime_error", "exception")}
+        tname = (thrown or "").replace("std::", "")
+        def caught_type(d):
+            ids = [x for x in d if x not in ("const", "&", "*", "&&", "std", "::", "volatile")]
+            return "..." if "".join(d) == "..." else "".join(ids[:-1]) if len(ids) > 1 else "".join(ids)
+        cnames = [caught_type(d) for d, b in t[2]]
+        if thrown is None:
+            pass
+        elif any(c == "..." or c == tname or c in BASES.get(tname, ()) for c in cnames):
+            ctx.ok("R4", "Solve catches what the observer throws", (OD, 0), f"the observer throws {thrown}, which the handler catches")
+        elif tname in BASES and all(c in BASES for c in cnames):
+            ctx.bad("R4", "Solve catches what the observer throws", (OD, 0),
+                    f"the observer throws `{thrown}` but Solve only catches {caught}: exceeding the step budget escapes Solve instead of returning NAUNET_FAIL",
+                    expected=f"catch (const {thrown} &e)", found=str(caught))
+        else:
+            ctx.unrec("R4", "Solve catches what the observer throws", (OD, 0), f"cannot relate the thrown type `{thrown}` to the caught type(s) {caught} (not standard exception classes)")
         OBS = None
         if integ:
             e = integ[0]
             k = e.index("integrate_adaptive")
             args = cstmt._top_split(e[k + 2:-1], (",",)) if e[k + 1:k + 2] == ["("] and e[-1] == ")" else []
             a = [cstmt.norm(x) for x in args]
+            if len(a) == 7 and re.fullmatch(r"(?:std|boost)::ref\((\w+)\)", a[6]):
+                a[6] = re.fullmatch(r"(?:std|boost)::ref\((\w+)\)", a[6]).group(1)      # the observer handed over by reference is that observer
             back = [src for s, c in SF.seq if SF.pos[id(s)] > SF.pos[id(t)] and s[0] in ("for", "expr") for d, src, n in (cstmt.copies(s) or []) if d == STATE]
             ipos = SF.pos.get(id(integ_st[0]), 0)
 
             def named(x):
                 """an argument with once-defined locals (`const double t_end = dt;`) replaced by their definitions"""
                 return SF.expand(x, ipos)
-            args_ok = len(a) == 7 and cstmt.IDENT.match(a[2]) and cstmt.value(named(args[3]), CONSTS) == 0 and cstmt.same_value(" ".join(named(args[4])), DT) is True \
-                and cstmt.same_value(" ".join(named(args[5])), DT) is True and cstmt.IDENT.match(a[6]) and (not back or a[2] in back)
-            ctx.check(bool(args_ok), "R4", "integrate over [0, dt] with the observer", (OD, 0), f"integrate_adaptive(.., y, 0.0, {DT}, {DT}, observer)", found=cstmt.txt(e)[-90:])
-            OBS = a[6] if len(a) == 7 else None
+            if len(a) == 7 and cstmt.IDENT.match(a[2]) and cstmt.IDENT.match(a[6]):
+                parts_ = [cstmt.value(named(args[3]), CONSTS), cstmt.same_value(" ".join(named(args[4])), DT), cstmt.same_value(" ".join(named(args[5])), DT)]
+                if parts_[0] is None or None in parts_[1:]:
+                    ctx.unrec("R4", "integrate over [0, dt] with the observer", (OD, 0), f"cannot follow the interval handed to integrate_adaptive: {cstmt.txt(e)[-90:]}")
+                else:
+                    args_ok = parts_[0] == 0 and parts_[1] is True and parts_[2] is True and (not back or a[2] in back)
+                    ctx.check(bool(args_ok), "R4", "integrate over [0, dt] with the observer", (OD, 0), f"integrate_adaptive(.., y, 0.0, {DT}, {DT}, observer)", found=cstmt.txt(e)[-90:])
+            else:
+                ctx.unrec("R4", "integrate over [0, dt] with the observer", (OD, 0), f"integrate_adaptive is not called with (stepper, system, state, start, end, first step, observer): {cstmt.txt(e)[-90:]}")
+            OBS = a[6] if len(a) == 7 and cstmt.IDENT.match(a[6]) else None
         else:
             ctx.unrec("R4", "integrate over [0, dt] with the observer", (OD, 0), "no integrate_adaptive call inside the try block")
         # ---- what Solve returns without / with a caught exception
@@ -892,7 +1262,116 @@ def _r4(ctx):
         # the budget may be handed over under a local name (`const int budget = mxsteps_;`)
         decl = [d[1][:d[1].index(OBS) + 1] + [t for t in SF.expand(d[1][d[1].index(OBS) + 1:], SF.pos[id(d)]) if t not in ("(", ")", "{", "}")] for d in decl]
         obs = any(cstmt.norm(d) in (f"Observer{OBS}mxsteps_", f"Observer{OBS}=Observermxsteps_", f"auto{OBS}=Observermxsteps_") for d in decl)
-        ctx.check(obs, "R4", "observer gets the step budget", (OD, 0), "Observer observer(mxsteps_): a fresh observer per call, built from the configured budget", found=str([cstmt.txt(d) for d in decl]))
+        key = "observer gets the step budget"
+        shown = str([cstmt.txt(d) for d in decl])
+        if obs:
+            ctx.ok("R4", key, (OD, 0), "Observer observer(mxsteps_): a fresh observer per call, built from the configured budget")
+        elif OBS is None:
+            ctx.unrec("R4", key, (OD, 0), "cannot see which observer is handed to integrate_adaptive")
+        elif not decl:
+            # the observer handed to the integrator is not built in Solve at all: it is a member / global built once
+            if OBS in cstmt.declared_locals(sb) or OBS in (sv.params or ()):
+                ctx.unrec("R4", key, (OD, 0), f"`{OBS}` is a local of Solve but not declared as an Observer in a way this rule reads")
+            else:
+                ctx.bad("R4", key, (OD, 0), "Observer observer(mxsteps_): a fresh observer per call, built from the configured budget", found=f"`{OBS}` is not built in Solve: the budget (and count) of an earlier call stay in force")
+        else:
+            d = decl[0]
+            rest = [t for t in d[d.index(OBS) + 1:] if t not in ("=", "Observer")]
+            simple = bool(rest) and all(cstmt.IDENT.match(t) or re.match(r"[\d.]", t) or t in "+-*/" for t in rest) and not any(t in ("std", "make_unique", "make_shared", "new") for t in d)
+            if "static" in d or "thread_local" in d or (simple and rest != ["mxsteps_"] and (len(rest) > 1 or not cstmt.IDENT.match(rest[0]))):
+                # positive evidence: built once for all calls, or from a number / an expression other than the configured budget
+                ctx.bad("R4", key, (OD, 0), "Observer observer(mxsteps_): a fresh observer per call, built from the configured budget", found=shown)
+            elif simple and len(rest) == 1 and cstmt.IDENT.match(rest[0]) and rest[0] not in cstmt.declared_locals(sb) and rest[0] not in (sv.params or ()):
+                ctx.ok("R4", key, (OD, 0), f"a fresh observer per call, built from the member `{rest[0]}` (R7: set by Init / Reset from their budget parameter)")
+            elif simple and len(rest) == 1:
+                ctx.bad("R4", key, (OD, 0), "Observer observer(mxsteps_): a fresh observer per call, built from the configured budget", found=shown)
+            else:
+                ctx.unrec("R4", key, (OD, 0), f"how the observer is built is not understood: {shown}")
+
+
+def _r7_budget(ctx):
+    """The budget the odeint observer enforces is the one the caller configured LAST: the member Solve builds the observer from is
+    assigned from the parameter of Init / Reset on every path on which they report success (a success exit taken before the
+    assignment leaves the budget of an earlier call in force: Solve then returns success although the budget asked for was exceeded)."""
+    sv = _func(ctx, OD, {}, "Naunet::Solve")
+    if sv is None:
+        return
+    SF = sv.fn
+    M = None
+    for x, c in SF.seq:
+        if x[0] == "expr" and "Observer" in x[1]:
+            i = x[1].index("Observer")
+            if i + 1 < len(x[1]) and cstmt.IDENT.match(x[1][i + 1]):
+                rest = [t for t in SF.expand(x[1][i + 2:], SF.pos[id(x)]) if t not in ("(", ")", "{", "}", "=", "Observer")]
+                if len(rest) == 1 and cstmt.IDENT.match(rest[0]):
+                    M = rest[0]
+    if M is None or M in (sv.params or ()) or M in cstmt.declared_locals(sv.body):
+        ctx.unrec("R7", "odeint:Solve:observer budget", (OD, 0), "cannot see which member of Naunet the observer's budget is taken from")
+        return
+    n = 0
+    for fname in ("Naunet::Init", "Naunet::Reset"):
+        fn = _func(ctx, OD, {}, fname)
+        if fn is None:
+            ctx.missing("R7", f"odeint:{fname}", (OD, 0), "function not found")
+            continue
+        n += 1
+        F = fn.fn
+        short = fname.split("::")[1]
+        key = f"odeint:{short}:stores the step budget before reporting success"
+        params = set(fn.params or ())
+        stores = [(i, op, rhs) for i, op, rhs, decl in F.defs.get(M, ())]
+        src = {_bare(F.expand(rhs, i)) if op == "=" and rhs is not None else None for i, op, rhs in stores}
+        if not stores:
+            others = {f.name.split("::")[-1] for f in fn.sk.funcs if f.name not in ("?", fname)}
+            delegated = any(t in others and pt[j + 1:j + 2] == ["("] for st, _ in F.seq for pt in st[1:] if isinstance(pt, list) and (not pt or isinstance(pt[0], str)) for j, t in enumerate(pt))
+            if delegated:
+                ctx.unrec("R7", key, (OD, 0), f"`{M}` is not assigned in {short} itself and a function that could not be looked into is called")
+            else:
+                ctx.bad("R7", key, (OD, 0), f"{short} never stores the step budget it is given in `{M}` (the member Solve builds the observer from): the budget of an earlier call stays in force",
+                        expected=f"{M} = <the mxsteps parameter>", found="no assignment")
+            continue
+        if len(src) != 1 or None in src or not (src <= params):
+            ctx.unrec("R7", key, (OD, 0), f"`{M}` is assigned something other than a parameter of {short}: {sorted(map(str, src))}")
+            continue
+        P = next(iter(src))
+
+        def same_already(conds):
+            """a guard that says the member already equals the parameter"""
+            for g in conds:
+                if g[0] == "if" and g[2]:
+                    for cj in cstmt._top_split(list(F.expand(g[1], F.pos.get(id(g[3]), 0))), ("&&",)):
+                        if _bare(cj) in (f"{M}=={P}", f"{P}=={M}"):
+                            return True
+            return False
+        early, unclear = [], []
+        for st, c in F.seq:
+            if st[0] != "return":
+                continue
+            val = cstmt.value(st[1], CONSTS)
+            if val == 1:
+                continue
+            rp = F.pos[id(st)]
+            mine = {(g[1], g[2], id(g[3])) for g in c if g[0] == "if"}
+            before = [i for i, op, rhs in stores if i < rp]
+            dom = [i for i in before if not any(g[0] in ("for", "while") for g in F.seq[i][1])
+                   and {(g[1], g[2], id(g[3])) for g in F.seq[i][1] if g[0] == "if"} <= mine]
+            if dom or same_already(c):
+                continue
+            if not before and val == 0 and not any(g[0] in ("for", "while", "try", "catch") for g in c):
+                early.append(st)
+            else:
+                unclear.append(st)
+        if early:
+            g = [("" if x[2] else "!") + "(" + cstmt.norm(x[1]) + ")" for x in F.seq[F.pos[id(early[0])]][1] if x[0] == "if"]
+            ctx.bad("R7", key, (OD, 0),
+                    f"{short} returns NAUNET_SUCCESS before `{M} = {P}` is executed (under {g}): the call is reported as done while the observer of the next Solve is still built from the budget of an "
+                    "earlier Init/Reset -- exceeding the budget asked for is not reported as failure",
+                    expected=f"{M} = {P} on every path that returns NAUNET_SUCCESS", found=f"return {cstmt.txt(early[0][1])} under {g}, before the assignment")
+        elif unclear:
+            ctx.unrec("R7", key, (OD, 0), f"cannot decide whether `{M} = {P}` has been executed when {short} returns `{cstmt.txt(unclear[0][1])}`")
+        else:
+            ctx.ok("R7", key, (OD, 0), f"`{M} = {P}` precedes every exit that reports success")
+    ctx.floor("R7", "configuration entry points", n, 2)
 
 
 def _r5(ctx):
@@ -928,10 +1407,17 @@ def _r5(ctx):
             envs = [{**CONSTS, "__solve": r, **({var: r} if var else {})} for r in (0, 1)]
             if cstmt.guards_truth(ifs, envs[1]) is True and cstmt.guards_truth(ifs, envs[0]) is False:
                 tested = True
-        ctx.check(bool(tested), "R5", f"{label}:PyWrapSolve tests Solve", (rel, 0),
-                  "the Python wrapper raises when Solve returns NAUNET_FAIL" if tested else
-                  "the Python wrapper drops the result of Solve: a failed integration returns the unfinished state as if it had succeeded",
-                  expected="int flag = Solve(..); if (flag == NAUNET_FAIL) throw ..", found="; ".join(cstmt.txt(x[1]) for x in call))
+        key = f"{label}:PyWrapSolve tests Solve"
+        dropped = [x for x in call if cstmt.sole_call(x[1]) and cstmt.sole_call(x[1])[0] == "Solve"]
+        unread = var is not None and call and not any(var in pt for x, c in F.seq if F.pos[id(x)] > F.pos[id(call[0])] for pt in x[1:] if isinstance(pt, list) and (not pt or isinstance(pt[0], str)))
+        if tested:
+            ctx.ok("R5", key, (rel, 0), "the Python wrapper raises when Solve returns NAUNET_FAIL")
+        elif dropped or unread or not call:
+            # positive evidence: the result is thrown away (`Solve(..);`), stored and never read, or Solve is not called
+            ctx.bad("R5", key, (rel, 0), "the Python wrapper drops the result of Solve: a failed integration returns the unfinished state as if it had succeeded",
+                    expected="int flag = Solve(..); if (flag == NAUNET_FAIL) throw ..", found="; ".join(cstmt.txt(x[1]) for x in call))
+        else:
+            ctx.unrec("R5", key, (rel, 0), "the result of Solve is used, but not in a `throw` under a test this rule can evaluate: " + "; ".join(cstmt.txt(x[1]) for x in call)[:160])
 
 
 MUTANTS = [
@@ -1238,4 +1724,37 @@ BENIGN += [
     {"name": "arguments-under-local-names", "edits": [
         {"file": CV, "old": "    int flag = HandleError(cvflag, ab, dt, t0);\n", "new": "    const realtype reached = t0;\n    int flag = HandleError(cvflag, ab, dt, reached);\n"},
         {"file": OD, "old": "    Observer observer(mxsteps_);\n", "new": "    const int budget = mxsteps_;\n    Observer observer{budget};\n"}]},
+]
+
+
+# ---------------------------------------------------------------- fourth catalogue: integrator advanced before the ladder; configuration entry points
+_RESET_OD = "int Naunet::Reset(int nsystem, double atol, double rtol, int mxsteps) {\n    if (nsystem != 1) {\n        printf(\"This solver doesn't support nsystem > 1!\");\n        return NAUNET_FAIL;\n    }\n\n"
+_RESET_STORE = "    n_system_ = nsystem;\n    mxsteps_  = mxsteps;\n    atol_     = atol;\n    rtol_     = rtol;\n\n    return NAUNET_SUCCESS;\n};\n\n#ifdef IDX_ELEM_H\nint Naunet::SetReferenceAbund"
+_HDR = "naunet/templates/cvode/include/naunet.h.j2"
+
+
+def _resume(sig):
+    return ("int Naunet::Resume(" + sig + ") {\n    int flag = CV_TOO_MUCH_WORK;\n    for (int k = 0; k < tries && flag == CV_TOO_MUCH_WORK; k++) {\n"
+            "        flag = CVode(cv_mem_, tout, cv_y_, &tnow, CV_NORMAL);\n    }\n    return flag;\n}\n\n")
+
+
+def _resumed(then):
+    return "    if (cvflag == -1) {\n        cvflag = Resume(dt, t0);\n" + then + "    }\n\n    realtype dt_init = dt;\n"
+
+
+_RESUME_DECL = {"file": _HDR, "old": "    realtype ab_tmp_[NEQUATIONS];  // Temporary state for error handling\n", "new": "    realtype ab_tmp_[NEQUATIONS];  // Temporary state for error handling\n    int Resume(realtype tout, realtype tnow, int tries = 2);\n"}
+MUTANTS += [
+    {"name": "resumed-before-the-ladder-time-by-value", "edits": [
+        _RESUME_DECL,
+        {"file": CV, "old": _HEAD, "new": _resume("realtype tout, realtype tnow, int tries") + _HEAD},
+        {"file": CV, "old": "    realtype dt_init = dt;\n", "new": _resumed("        if (cvflag >= 0) {\n            return NAUNET_SUCCESS;\n        }\n")}], "rules": ["R3"]},
+    {"name": "reset-early-exit-without-the-budget", "file": OD, "old": _RESET_OD, "new": _RESET_OD + "    if (nsystem == n_system_ && atol == atol_ && rtol == rtol_) {\n        return NAUNET_SUCCESS;\n    }\n\n", "rules": ["R7"]},
+    {"name": "reset-does-not-store-the-budget", "file": OD, "old": _RESET_STORE, "new": _RESET_STORE.replace("    mxsteps_  = mxsteps;\n", ""), "rules": ["R7"]},
+]
+BENIGN += [
+    {"name": "reset-early-exit-when-nothing-changes", "file": OD, "old": _RESET_OD,
+     "new": _RESET_OD + "    if (nsystem == n_system_ && atol == atol_ && rtol == rtol_ && mxsteps == mxsteps_) {\n        return NAUNET_SUCCESS;\n    }\n\n"},
+    {"name": "reset-stores-through-a-setter", "edits": [
+        {"file": OD, "old": _RESET_STORE, "new": _RESET_STORE.replace("    n_system_ = nsystem;\n    mxsteps_  = mxsteps;\n    atol_     = atol;\n    rtol_     = rtol;\n", "    Configure(nsystem, atol, rtol, mxsteps);\n")},
+        {"file": OD, "old": "int Naunet::Reset(int nsystem,", "new": "void Naunet::Configure(int nsystem, double atol, double rtol, int budget) {\n    n_system_ = nsystem;\n    mxsteps_  = budget;\n    atol_     = atol;\n    rtol_     = rtol;\n}\n\nint Naunet::Reset(int nsystem,"}]},
 ]
